@@ -1,5 +1,6 @@
 import Driver.Util
 import ZvbiModel.Cc.Model
+import ZvbiModel.Cc.Lang
 /-!
 Line-protocol driver of the Closed Caption model (component `cc`, property C08).
 Mirror of harness/cc_harness.c - see there for the op list.
@@ -112,6 +113,18 @@ def step (s : St) (ws : List String) : St × String :=
       (s', s!"ok {eventsStr s s'}")
     else (s, "rej parse")
   | "layout" :: rest => if rest.isEmpty then (s, layoutStr) else (s, "rej parse")
+  | "cu" :: rest =>
+    -- `cu <hex8> <0|1>`: vbi_caption_unicode (c, to_upper), c as four bytes big-endian
+    (match rest with
+     | [h, u] =>
+       (match parseHex h, parseInt u with
+        | some [a, b, c, d], some u =>
+          if u != 0 && u != 1 then (s, "rej parse") else
+          (match Lang.captionUnicode (((a * 256 + b) * 256 + c) * 256 + d) (u == 1) with
+           | some v => (s, s!"ok {hexStr v}")
+           | none => (s, "rej oob caption_unicode"))
+        | _, _ => (s, "rej parse"))
+     | _ => (s, "rej parse"))
   | _ => (s, "rej op")
 
 def main : IO Unit := runLoop Zvbi.Cc.init step
